@@ -121,13 +121,35 @@ IsBest(s, i, p, l) ==
   /\ l = MatchLen(p, s, i)
   /\ \A q \in 1..NPat : LET m == MatchLen(q, s, i) IN m <= l /\ (q < p => m < l)
 
-\* Operational: one pass over the table.
-RECURSIVE BestFrom(_, _, _, _, _)
-BestFrom(p, s, i, bl, bp) ==
-  IF p > NPat THEN [len |-> bl, pat |-> bp]
-  ELSE LET m == MatchLen(p, s, i)
-       IN IF m > bl THEN BestFrom(p + 1, s, i, m, p) ELSE BestFrom(p + 1, s, i, bl, bp)
-Best(s, i) == BestFrom(1, s, i, 0, 0)      \* len = 0: nothing matches a non-empty string
+\* Operational: one pass over the table, restricted to the patterns that can start with
+\* the character at hand.  CanStart over-approximates "has a non-empty match beginning with
+\* c" (first sets with nullability); LexMC checks Best against IsBest, which scans everything.
+RECURSIVE Nullable(_), CanStart(_, _)
+Nullable(re) ==
+  CASE re.k = "set" -> FALSE
+    [] re.k = "eol" -> TRUE
+    [] re.k = "alt" -> \E k \in 1..Len(re.subs) : Nullable(re.subs[k])
+    [] re.k = "cat" -> \A k \in 1..Len(re.subs) : Nullable(re.subs[k])
+    [] re.k = "rep" -> re.min = 0 \/ Nullable(re.subs[1])
+CanStart(re, c) ==
+  CASE re.k = "set" -> InSet(re, c)
+    [] re.k = "eol" -> FALSE
+    [] re.k = "alt" -> \E k \in 1..Len(re.subs) : CanStart(re.subs[k], c)
+    [] re.k = "cat" -> \E k \in 1..Len(re.subs) :
+                         CanStart(re.subs[k], c) /\ \A j \in 1..(k - 1) : Nullable(re.subs[j])
+    [] re.k = "rep" -> re.max # 0 /\ CanStart(re.subs[1], c)
+
+AllPats == [p \in 1..NPat |-> p]
+CandFor(c) == SelectSeq(AllPats, LAMBDA p : CanStart(Patterns[p].re, c))
+AsciiCand == [c \in 0..127 |-> CandFor(c)]          \* constant: evaluated once
+Cand(c) == IF c <= 127 THEN AsciiCand[c] ELSE CandFor(c)
+
+RECURSIVE BestFrom(_, _, _, _, _, _)
+BestFrom(cs, k, s, i, bl, bp) ==
+  IF k > Len(cs) THEN [len |-> bl, pat |-> bp]
+  ELSE LET m == MatchLen(cs[k], s, i)
+       IN IF m > bl THEN BestFrom(cs, k + 1, s, i, m, cs[k]) ELSE BestFrom(cs, k + 1, s, i, bl, bp)
+Best(s, i) == BestFrom(Cand(s[i]), 1, s, i, 0, 0)      \* len = 0: nothing matches here
 
 ---------------------------------------------------------------------------
 (* Tokens *)
